@@ -62,6 +62,7 @@ class Trace:
     raw_events: List[str] = field(default_factory=list)   # implementation only: the lines as the harness logged them
     result: str = ''                                  # the R line
     tree: List[str] = field(default_factory=list)     # TREE / T lines (C12)
+    alerts: List[str] = field(default_factory=list)   # lines in which the harness itself reports a broken invariant (covbad: coverage counters, SHUF-BAD: state order)
     leaf_sound: str = ''                              # model only: side condition of C12_tree evaluated on this trace
     o: str = ''                                       # the O line
     surv: List[str] = field(default_factory=list)     # model only
@@ -117,6 +118,8 @@ def parse_traces(text: str, impl: bool = False) -> Dict[str, Trace]:
             cur.tree.append(line)
         elif line.startswith('LS '):
             cur.leaf_sound = line[3:].strip()
+        elif line.startswith('covbad') or line.startswith('SHUF-BAD'):
+            cur.alerts.append(line)
         elif impl:
             cur.raw_events.append(line)
             cur.events.append(mask_rp(canon_event(line)))
